@@ -23,8 +23,45 @@ pub fn run(case: &str) -> String {
     let case = case.to_string();
     guarded(move || {
         let mut h = Headers::new();
-        let mut outs = Vec::new();
-        for op in case.split(';') {
+        let mut outs: Vec<String> = Vec::new();
+        // optional constructor prefix: `V<n>` / `S<n>` = the first n operations (all adds) are handed to Headers::from(Vec) /
+        // Headers::from(&[(&str, &[u8])]) in one go (their per-step dumps are `~` except the last); `N` = Headers::new_nodate()
+        let all_ops: Vec<&str> = case.split(';').filter(|o| !o.is_empty()).collect();
+        let mut start = 0;
+        let owned: Vec<(String, Vec<u8>)>;
+        if let Some(first) = all_ops.first() {
+            let k = &first[..1];
+            if k == "N" { h = Headers::new_nodate(); start = 1; }
+            else if k == "V" || k == "S" {
+                // (clamped to the adds that really follow, so that a shrunk case stays meaningful)
+                let n: usize = first[1..].parse::<usize>().unwrap_or(0).min(all_ops[1..].iter().take_while(|o| o.starts_with('A')).count());
+                owned = all_ops[1..1 + n].iter().map(|op| { let (nm, v) = op[1..].split_once(',').unwrap(); (String::from_utf8(unhex(nm)).unwrap(), unhex(v)) }).collect();
+                if k == "V" {
+                    let v: Vec<(std::borrow::Cow<str>, std::borrow::Cow<[u8]>)> = owned.iter().map(|(a, b)| (std::borrow::Cow::Owned(a.clone()), std::borrow::Cow::Owned(b.clone()))).collect();
+                    h = Headers::from(v);
+                } else {
+                    let sl: Vec<(&str, &[u8])> = owned.iter().map(|(a, b)| (a.as_str(), b.as_slice())).collect();
+                    // (the collection borrows from `owned`, which outlives it: copy into an owned one for the rest of the history)
+                    let hs: Headers = Headers::from(&sl[..]);
+                    let mut h2 = Headers::new();
+                    let _ = &mut h2;
+                    outs.extend((1..n).map(|_| "~".to_string()));
+                    if n > 0 { outs.push(dump(&hs)); }
+                    // continue the history on the borrowed collection itself
+                    return finish(hs, &all_ops[1 + n..], outs);
+                }
+                outs.extend((1..n).map(|_| "~".to_string()));
+                if n > 0 { outs.push(dump(&h)); }
+                start = 1 + n;
+            }
+        }
+        finish(h, &all_ops[start..], outs)
+    }).unwrap_or_else(|_| "PANIC".into())
+}
+
+fn finish(mut h: Headers, ops: &[&str], mut outs: Vec<String>) -> String {
+    {
+        for op in ops {
             if op.is_empty() { continue; }
             let (k, rest) = op.split_at(1);
             match k {
@@ -52,8 +89,11 @@ pub fn run(case: &str) -> String {
         let te: Vec<String> = h.get_transfer_encoding().iter().map(|t| hex(t)).collect();
         let cv: Vec<String> = h.get_connection_values().iter().map(|t| hex(t)).collect();
         s.push_str(&format!("|te=[{}]|cv=[{}]", te.join(","), cv.join(",")));
+        // the same fields through `for .. in &headers`
+        let via_into: Vec<String> = (&h).into_iter().map(|(k, v)| format!("{}:{}", hex(k.as_bytes()), hex(v))).collect();
+        if format!("[{}]", via_into.join(",")) != dump_fields(&h) { s.push_str("|INTOITER-DIFFERS"); }
         s
-    }).unwrap_or_else(|_| "PANIC".into())
+    }
 }
 
 fn a(n: &str, v: &[u8]) -> String { format!("A{},{}", hex(n.as_bytes()), hex(v)) }
@@ -76,7 +116,7 @@ pub fn gen(ctx: &Ctx) {
     let mut rng = Rng::new(ctx.seed, "headers");
     let mut out = Out::new(&ctx.dir, "headers");
     out.rule = "operation sequences over a 22-op alphabet (add/replace/remove with mixed-case names, padded and mixed-case token lists, valid/invalid/non-UTF-8 \
-                content-length values, set_*): exhaustive to length 3 (thorough: 4), random sequences of length 5..40 with random token lists; \
+                content-length values, set_*): exhaustive to length 3 (thorough: 4), random sequences of length 5..40 with random token lists; one history in five starts from Headers::from(Vec) / Headers::from(slice) over its leading adds or from new_nodate(), and all single / pairs of alphabet adds go through both bulk constructors; \
                 non-trivial = some cached answer (chunked / close / content length) is set at some point of the history".into();
     let al = alphabet();
     let mut emit = |out: &mut Out, case: String, class: &str| {
@@ -126,7 +166,19 @@ pub fn gen(ctx: &Ctx) {
                 _ => format!("L{}", rng.below(1000)),
             });
         }
-        emit(&mut out, ops.join(";"), "random");
+        // one history in five starts from another constructor: the leading run of adds goes through From<Vec> / From<slice>
+        let lead = ops.iter().take_while(|o| o.starts_with('A')).count();
+        match rng.below(10) {
+            0 if lead > 0 => { let n = rng.range(1, lead as u64); emit(&mut out, format!("V{n};{}", ops.join(";")), "random/from-vec"); }
+            1 if lead > 0 => { let n = rng.range(1, lead as u64); emit(&mut out, format!("S{n};{}", ops.join(";")), "random/from-slice"); }
+            2 => emit(&mut out, format!("N;{}", ops.join(";")), "random/new-nodate"),
+            _ => emit(&mut out, ops.join(";"), "random"),
+        }
+    }
+    // every single and every pair of alphabet adds through the two bulk constructors
+    let adds: Vec<&String> = al.iter().filter(|o| o.starts_with('A')).collect();
+    for k in ["V", "S"] {
+        for x in &adds { emit(&mut out, format!("{k}1;{x}"), "constructor"); for y in &adds { emit(&mut out, format!("{k}2;{x};{y}"), "constructor"); emit(&mut out, format!("{k}1;{x};{y}"), "constructor"); } }
     }
     out.finish();
 }
